@@ -380,6 +380,9 @@ var CalcBinary = func() string {
 	if p := os.Getenv("SIMCALC_CALC"); p != "" {
 		return p
 	}
+	if d := os.Getenv("SIMCALC_VERIFDIR"); d != "" {
+		return d + "/.build/calc"
+	}
 	return "/verif/.build/calc"
 }()
 
